@@ -76,6 +76,15 @@ def build_atom(torch, name, D, pos, ctxf, seed):
             m.shift.copy_(torch.linspace(-0.2, 0.5, D))
             m.initialized.data = torch.tensor(True)
         return m
+    if name == "batchnorm":
+        # evaluation mode: running statistics as left by training, small against a non-default eps
+        m = TR.BatchNorm(D, eps=(1e-2, 1e-3, 1e-5)[(pos + seed) % 3])
+        with torch.no_grad():
+            m.running_mean.copy_(torch.linspace(0.3, -0.2, D))
+            m.running_var.copy_(torch.linspace(0.02, 0.6, D) if D > 1 else torch.tensor([0.05]))
+            m.unconstrained_weight.copy_(torch.linspace(0.2, 0.9, D))
+            m.bias.copy_(torch.linspace(-0.1, 0.2, D))
+        return m
     if name == "sigmoid":
         return NL.Sigmoid(temperature=0.8)
     if name == "cauchycdf":
